@@ -5281,17 +5281,15 @@ func (a *Agent) TaskDispatch(RequestID uint32, CommandID uint32, Parser *parser.
 										Message["MiscType"] = "reconnect"
 										Message["MiscData"] = fmt.Sprintf("%v;%x", a.NameID, AgentHdr.AgentID)
 
-										// leave the previous parent: its link list and the persisted link
-										if DemonInfo.Pivots.Parent != nil {
-											teamserver.LinkRemove(DemonInfo.Pivots.Parent, DemonInfo, true)
-										}
+										// leave the previous parent (its link list and the persisted link) and
+										// join the new one; the agent stays alive throughout
+										teamserver.LinkMove(DemonInfo.Pivots.Parent, a, DemonInfo)
 
 										DemonInfo.Active = true
 										DemonInfo.Reason = ""
 										DemonInfo.Pivots.Parent = a
 
 										a.Pivots.Links = append(a.Pivots.Links, DemonInfo)
-										teamserver.LinkAdd(a, DemonInfo)
 
 										teamserver.AgentUpdate(DemonInfo)
 										teamserver.AgentUpdate(a)
